@@ -19,6 +19,16 @@ pub const TARGETS: &[&str] = &[
     "/file-upload/initiate?name=a.txt&size=5&lastModified=1", "/file-upload/initiate?name=new.txt&size=100&lastModified=1", "/file-upload/initiate?name=../escaped.txt&size=100&lastModified=1",
     "/file-upload/initiate?name=dir/index.html&size=100&lastModified=1", "/a.txt", "/new.txt", "/../escaped.txt",
 ];
+/// file names with characters that path-handling code tends to special-case
+pub const ODD_FILES: &[&str] = &["q&a.html", "price;list.txt", "it's.txt", "pipe|name.txt", "with space.txt", "semi;colon dir/x.txt"];
+pub const ODD_TARGETS: &[&str] = &["/q&a.html", "/price;list.txt", "/it's.txt", "/pipe|name.txt", "/with%20space.txt", "/semi;colon%20dir/x.txt", "/file.txt", "/dir/", "/big.bin"];
+/// Range header values: satisfiable, refused (beyond the file, inverted, wrong unit), several
+pub const RANGE_VALUES: &[&str] = &["bytes=0-0", "bytes=100000-", "bytes=7-3", "items=0-1", "bytes=0-0,-1", "bytes=-0"];
+/// what the transport does to the exchange (the client goes away at different moments)
+pub const TRANSPORTS: &[&str] = &["write-err@0", "write-err@head", "write-err@body", "flush-err", "read-err", "read-eof", "half-sent", "short-write"];
+pub const TRANSPORT_TARGETS: &[(&str, &str, &str)] = &[("GET", "/file.txt", "none"), ("GET", "/big.bin", "none"), ("GET", "/missing.txt", "none"), ("GET", "/", "none"), ("HEAD", "/file.txt", "none"), ("OPTIONS", "/file.txt", "none"),
+    ("POST", "/form-url-encoded-enctype-post-method", "urlencoded"), ("POST", "/form-multipart-enctype-post-method", "multipart:new.txt"), ("POST", "/file-upload/initiate?name=new.txt&size=100&lastModified=1", "raw"), ("PUT", "/new.txt", "raw"), ("GET", "/q&a.html", "none")];
+
 pub const BODIES: &[&str] = &["none", "multipart:a.txt", "multipart:new.txt", "multipart:../escaped.txt", "multipart:dir/index.html", "urlencoded", "raw"];
 
 fn multipart(filename: &str) -> Vec<u8> {
@@ -26,7 +36,14 @@ fn multipart(filename: &str) -> Vec<u8> {
 }
 
 pub fn request(method: &str, target: &str, body: &str) -> Vec<u8> {
+    request_with(method, target, body, None)
+}
+
+pub fn request_with(method: &str, target: &str, body: &str, range: Option<&str>) -> Vec<u8> {
     let mut h: Vec<(&str, &str)> = vec![("Host", "localhost")];
+    if let Some(r) = range {
+        h.push(("Range", r));
+    }
     let b: Vec<u8>;
     if let Some(f) = body.strip_prefix("multipart:") {
         h.push(("Content-Type", "multipart/form-data; boundary=XB"));
@@ -55,6 +72,9 @@ pub fn build_site(tag: &str) -> Site {
     let root = scratch.join("root");
     let mut t = corpus::tree();
     t.entries.remove("four-mib.bin");
+    for (i, f) in ODD_FILES.iter().enumerate() {
+        t.file(f, format!("odd file number {}\n", i).as_bytes());
+    }
     t.build(&root);
     std::fs::create_dir_all(scratch.join("sibling")).unwrap();
     std::fs::write(scratch.join("sibling/sentinel.txt"), b"sibling sentinel").unwrap();
@@ -96,7 +116,24 @@ fn kind_of(d: &[String]) -> &'static str {
 }
 
 pub fn run_bytes(entry: Entry, req: &[u8]) {
-    let mut s = MockStream::new(req);
+    run_bytes_over(entry, req, "")
+}
+
+pub fn run_bytes_over(entry: Entry, req: &[u8], transport: &str) {
+    use crate::transport::{ReadPlan, WritePlan};
+    use std::io::ErrorKind;
+    let s = MockStream::new(req);
+    let mut s = match transport {
+        "write-err@0" => s.with_write(WritePlan::ErrAt(0, ErrorKind::BrokenPipe)),
+        "write-err@head" => s.with_write(WritePlan::ErrAt(40, ErrorKind::ConnectionReset)),
+        "write-err@body" => s.with_write(WritePlan::ErrAt(1060, ErrorKind::ConnectionReset)),
+        "flush-err" => s.with_flush_err(ErrorKind::BrokenPipe),
+        "read-err" => s.with_read(ReadPlan::Err(ErrorKind::ConnectionReset)),
+        "read-eof" => s.with_read(ReadPlan::Eof),
+        "half-sent" => s.with_read(ReadPlan::Prefix(req.len() / 2)),
+        "short-write" => s.with_write(WritePlan::Uniform(7)),
+        _ => s,
+    };
     let _ = drive::run(entry, &mut s);
 }
 
@@ -109,8 +146,8 @@ pub fn run_history(site: &Site, hist: &Value) -> Vec<String> {
             let case = corpus::case_from_json(&step["case"]);
             let _ = c04::execute(&case);
         } else {
-            let req = request(step["method"].as_str().unwrap_or("GET"), step["target"].as_str().unwrap_or("/"), step["body"].as_str().unwrap_or("none"));
-            run_bytes(entry, &req);
+            let req = request_with(step["method"].as_str().unwrap_or("GET"), step["target"].as_str().unwrap_or("/"), step["body"].as_str().unwrap_or("none"), step["range"].as_str());
+            run_bytes_over(entry, &req, step["transport"].as_str().unwrap_or(""));
         }
     }
     let after = crate::tree::manifest(&site.scratch);
@@ -127,7 +164,14 @@ fn class_of_step(s: &Value) -> String {
     }
     let t = s["target"].as_str().unwrap_or("");
     let t = t.split('?').next().unwrap_or(t);
-    format!("{} {}", s["method"].as_str().unwrap_or(""), t)
+    let mut out = format!("{} {}", s["method"].as_str().unwrap_or(""), t);
+    if let Some(r) = s["range"].as_str() {
+        out.push_str(&format!(" [Range: {}]", r));
+    }
+    if let Some(tr) = s["transport"].as_str() {
+        out.push_str(&format!(" [transport: {}]", tr));
+    }
+    out
 }
 
 pub fn run(ctx: &mut Ctx) {
@@ -197,6 +241,28 @@ pub fn run(ctx: &mut Ctx) {
                         judge(ctx, &mut site, json!([step(entry, m1, t1, b1), step(entry, m2, t2, b2), step(entry, m3, t3, b3)]));
                     }
                 }
+            }
+        }
+    }
+    // names with special characters x Range values (satisfiable and refused), GET and HEAD; twice in a row
+    ctx.bound("odd_names_and_ranges", json!({"files": ODD_FILES, "targets": ODD_TARGETS, "ranges": RANGE_VALUES, "methods": ["GET", "HEAD"]}));
+    ctx.bound("transport_faults", json!({"transports": TRANSPORTS, "requests": TRANSPORT_TARGETS.iter().map(|(m, t, _)| format!("{} {}", m, t)).collect::<Vec<_>>(), "histories": "each alone and three times in a row"}));
+    for entry in [Entry::Process, Entry::Legacy] {
+        for t in ODD_TARGETS {
+            for m in ["GET", "HEAD"] {
+                judge(ctx, &mut site, json!([step(entry, m, t, "none")]));
+                for r in RANGE_VALUES {
+                    let st = json!({"entry": entry.name(), "method": m, "target": t, "body": "none", "range": r});
+                    judge(ctx, &mut site, json!([st.clone()]));
+                    judge(ctx, &mut site, json!([st.clone(), st]));
+                }
+            }
+        }
+        for (m, t, b) in TRANSPORT_TARGETS {
+            for tr in TRANSPORTS {
+                let st = json!({"entry": entry.name(), "method": m, "target": t, "body": b, "transport": tr});
+                judge(ctx, &mut site, json!([st.clone()]));
+                judge(ctx, &mut site, json!([st.clone(), st.clone(), st]));
             }
         }
     }
